@@ -76,6 +76,9 @@ extern int mpt_output_bind_string(MPT_INTERFACE(output) *out, const char *descr)
 	/* read binding description string */
 	while ((len = mpt_string_dest(&str, ':', descr))) {
 		if (len < 0) {
+			if (bindMessageEnd(out, &mt) < 0) {
+				return -1;
+			}
 			(void) mpt_output_log(out, __func__, MPT_LOG(Error), "%s: %d: %s",
 			                      MPT_tr("bad data destination"), bnd.src.dim+1, descr);
 			return dim - 1;
